@@ -273,6 +273,13 @@ func (s *Solver) Check(extra ...*Term) Result {
 	if sawErr {
 		res = Unknown
 	}
+	if res == Unknown {
+		// after a timeout or an error line the process state (scopes, cancel flag) is not
+		// trustworthy: start a fresh process; the owner re-asserts its path condition
+		s.Stats.Unknown++
+		s.restartLost()
+		return Unknown
+	}
 	if len(extra) > 0 {
 		if res == Sat {
 			// keep scope for model query; caller must call EndCheck
